@@ -5,8 +5,10 @@ model (exact on the 1/8-pixel lattice for center / interp / oversample(2,4)); th
 cases are evaluated by the Coq model (C18_Model.check_case, vm_compute) and compared
 exactly (unit tag + every pixel as an integer).  Every disagreement is decided by the
 independent oracle `oracle_render` (the property statement: per-pixel sum over rows).
-Metamorphic clauses (row order, concatenation, off-image rows, inputs unchanged) are
-checked directly on the implementation.  Clauses depending on library numerics
+Metamorphic clauses (row order — all orders for <= 4 rows —, concatenation, off-image rows,
+whole-pixel translation into a larger frame, inputs unchanged) are checked directly on the
+implementation.  When the implementation shows the two known defects of /repo HEAD, the model
+of the unrepaired loop (C18_Model.render_orig) is tied to it as well (check_case_orig).  Clauses depending on library numerics
 (analytic / PRF / image / compound models with arbitrary doubles, 'integrate',
 PSF-photometry model and residual images) are support tests in Python (ctx.support).
 """
@@ -420,7 +422,7 @@ def metamorphic(ctx, case, res, want, thorough):
     # row order
     perms = []
     if n >= 2:
-        if n <= (4 if thorough else 3):
+        if n <= 4:
             perms = [p for p in itertools.permutations(range(n))][1:]
         else:
             for _ in range(2):
@@ -458,6 +460,62 @@ def metamorphic(ctx, case, res, want, thorough):
             sig = 'make_model_image:offimage-rows' + (':units' if case['unit'] else '')
             ctx.violation(sig, 'removing the rows that do not overlap the image changes the result',
                           {'case': case, 'kept_rows': hits, 'impl': res_json(res), 'impl_kept': res_json(r3)})
+
+
+def shifted_case(case, dy, dx, pad):
+    """the same table with every source moved by (dy, dx) whole pixels, in a frame enlarged
+    by (dy + pad[0], dx + pad[1]); None if the positions are not table columns."""
+    m, ok = oracle_map(case)
+    xn, yn = eff_names(case)
+    if not ok or xn not in m or yn not in m or m[xn] == m[yn]:
+        return None
+    jx, jy = case['cols'].index(m[xn]), case['cols'].index(m[yn])
+    c2 = dict(case)
+    c2['shape'] = [case['shape'][0] + dy + pad[0], case['shape'][1] + dx + pad[1]]
+    rows = []
+    for r in case['rows']:
+        r = list(r)
+        r[jx] += 8 * dx
+        r[jy] += 8 * dy
+        rows.append(r)
+    c2['rows'] = rows
+    return c2
+
+
+def shift_check(ctx, case, res):
+    """render_shift: pixel (y + dy, x + dx) of the shifted rendering == pixel (y, x)."""
+    rng = ctx.rng
+    if res[0] != 'img' or not case['rows']:
+        return
+    # a mapped column that feeds both a position and another parameter would not be a pure shift
+    m, _ = oracle_map(case)
+    xn, yn = eff_names(case)
+    if sum(1 for v in m.values() if v in (m.get(xn), m.get(yn))) != 2:
+        return
+    dy, dx = rng.randint(0, 3), rng.randint(0, 3)
+    pad = (rng.randint(0, 2), rng.randint(0, 2))
+    c2 = shifted_case(case, dy, dx, pad)
+    if c2 is None:
+        return
+    r2, _ = run_impl(c2)
+    ctx.stat('metamorphic', 'shift')
+    ny, nx = case['shape']
+    ok = r2[0] == 'img' and r2[1] == res[1] and \
+        np.array_equal(r2[2][dy:dy + ny, dx:dx + nx], res[2])
+    if not ok:
+        if r2[0] == 'exc':                                   # the shifted call itself is at fault
+            w2 = oracle_render(c2)
+            ctx.violation(signature(c2, r2, w2), 'make_model_image raised on a valid table',
+                          {'case': c2, 'impl': res_json(r2),
+                           'expected': None if w2 is None else {'unit': w2[0], 'image_x65536': w2[1].tolist()}})
+            return
+        if r2[1] != res[1]:
+            sig = 'make_model_image:shift:units'
+        else:
+            sig = 'make_model_image:shift'
+        ctx.violation(sig, 'moving every source by whole pixels does not move the '
+                      'rendered pixels with them', {'case': case, 'shift': [dy, dx], 'pad': list(pad),
+                                                    'impl': res_json(res), 'impl_shifted': res_json(r2)})
 
 
 def signature(case, res, want):
@@ -522,127 +580,172 @@ def close(a, b, mag, nterms):
     return a.shape == b.shape and bool(np.all(np.abs(a - b) <= tol))
 
 
-def support_models(ctx, n):
-    import astropy.units as u
+def _support_model(which):
     from astropy.modeling.models import Const2D, Gaussian2D
+    from photutils.psf import CircularGaussianPRF, ImagePSF
+    if which.startswith('gauss'):
+        return Gaussian2D(1, 0, 0, 1.3, 0.8, 0.3), 'x_mean', 'y_mean', 'amplitude'
+    if which.startswith('prf'):
+        return CircularGaussianPRF(fwhm=2.1), 'x_0', 'y_0', 'flux'
+    if which == 'image':
+        yy, xx = np.mgrid[-4:5, -4:5]
+        kern = np.exp(-(xx ** 2 + yy ** 2) / 5.0)
+        kern /= kern.sum()
+        return ImagePSF(kern), 'x_0', 'y_0', 'flux'
+    return Gaussian2D(1, 0, 0, 1.1, 1.7, 0.0) + Const2D(0.25), 'x_mean_0', 'y_mean_0', 'amplitude_0'
+
+
+def support_one(detail):
+    """run one support case (general doubles, library models) from its description;
+    returns the list of (signature, what) that fail."""
+    import astropy.units as u
     from astropy.table import QTable, Table
     from photutils.datasets import make_model_image
-    from photutils.psf import CircularGaussianPRF, ImagePSF
+    which, method, factor = detail['model'], detail['method'], detail['factor']
+    (ny, nx), sh = detail['shape'], tuple(detail['model_shape'])
+    model, xn, yn, fl = _support_model(which)
+    ref_model = _support_model(which)[0]                 # never handed to the code under test
+    unit = u.Jy if which.endswith('unit') else None
+    nrow = len(detail['x'])
+
+    def table(order):
+        tbl = QTable() if unit is not None else Table()
+        tbl[xn] = np.array([detail['x'][i] for i in order])
+        tbl[yn] = np.array([detail['y'][i] for i in order])
+        fls = np.array([detail['flux'][i] for i in order])
+        tbl[fl] = fls * unit if unit is not None else fls
+        if detail['local_bkg'] is not None:
+            bk = np.array([detail['local_bkg'][i] for i in order])
+            tbl['local_bkg'] = bk * unit if unit is not None else bk
+        return tbl
+
+    def snap(mod, tbl):
+        return (repr(mod.parameters.tolist()), [str(getattr(mod, pn).unit) for pn in mod.param_names],
+                repr([np.asarray(getattr(tbl[cn], 'value', tbl[cn])).tolist() for cn in tbl.colnames]),
+                [str(getattr(tbl[cn], 'unit', None)) for cn in tbl.colnames])
+
+    fails = []
+    tbl = table(range(nrow))
+    before = snap(model, tbl)
+    kw = dict(model_shape=sh, x_name=xn, y_name=yn, discretize_method=method, discretize_oversample=factor)
+    try:
+        with warnings.catch_warnings():
+            warnings.simplefilter('ignore')
+            got = make_model_image((ny, nx), model, tbl, **kw)
+    except Exception as e:  # noqa: BLE001
+        return [('support:make_model_image:raises:' + type(e).__name__,
+                 'make_model_image raised on a valid table: ' + str(e)[:120])]
+    if snap(model, tbl) != before:
+        return [('support:make_model_image:inputs-modified', 'input model or table modified')]
+    want, mag = float_oracle((ny, nx), ref_model, table(range(nrow)), xn, yn, sh, method, factor)
+    gunit = getattr(got, 'unit', None)
+    garr = np.asarray(getattr(got, 'value', got), float)
+    if gunit != unit:
+        fails.append(('support:make_model_image:units', f'image unit {gunit} != model unit {unit}'))
+    scale = 1e6 if method == 'integrate' else 1.0           # dblquad: absolute tolerances of the integrator
+    if not close(garr, want, mag * scale, nrow):
+        fails.append(('support:make_model_image:superposition:' + which,
+                      'image differs from the sum of the per-row windows beyond the rounding bound'))
+    # row order to rounding
+    try:
+        with warnings.catch_warnings():
+            warnings.simplefilter('ignore')
+            g2 = make_model_image((ny, nx), model, table(detail['perm']), **kw)
+    except Exception as e:  # noqa: BLE001
+        fails.append(('support:make_model_image:row-order:raises:' + type(e).__name__,
+                      'make_model_image raised on a re-ordered table: ' + str(e)[:120]))
+        return fails
+    if not close(np.asarray(getattr(g2, 'value', g2), float), garr, mag * scale, nrow) \
+            or getattr(g2, 'unit', None) != gunit:
+        fails.append(('support:make_model_image:row-order:' + which, 'image depends on row order'))
+    return fails
+
+
+def support_models(ctx, n):
     rng = ctx.rng
-    yy, xx = np.mgrid[-4:5, -4:5]
-    kern = np.exp(-(xx ** 2 + yy ** 2) / 5.0)
-    kern /= kern.sum()
     for it in range(n):
         which = rng.choice(['gauss', 'prf', 'image', 'compound', 'gauss-unit', 'prf-unit'])
         ny, nx = rng.randint(3, 12), rng.randint(3, 12)
         nrow = rng.randint(1, 6)
-        if which.startswith('gauss'):
-            model, xn, yn, fl = Gaussian2D(1, 0, 0, 1.3, 0.8, 0.3), 'x_mean', 'y_mean', 'amplitude'
-        elif which.startswith('prf'):
-            model, xn, yn, fl = CircularGaussianPRF(fwhm=2.1), 'x_0', 'y_0', 'flux'
-        elif which == 'image':
-            model, xn, yn, fl = ImagePSF(kern), 'x_0', 'y_0', 'flux'
-        else:
-            model = Gaussian2D(1, 0, 0, 1.1, 1.7, 0.0) + Const2D(0.25)
-            xn, yn, fl = 'x_mean_0', 'y_mean_0', 'amplitude_0'
-        unit = u.Jy if which.endswith('unit') else None
         sh = (rng.randint(1, 7), rng.randint(1, 7))
         xs = [rng.uniform(-sh[1], nx + sh[1]) for _ in range(nrow)]
         ys = [rng.uniform(-sh[0], ny + sh[0]) for _ in range(nrow)]
         if rng.random() < 0.5:
             xs[0] = -50.0                                 # first row far off the image
-        fls = np.array([rng.uniform(0.5, 50) for _ in range(nrow)])
-        bk = np.array([rng.uniform(-1, 1) for _ in range(nrow)])
-        tbl = QTable() if unit is not None else Table()
-        tbl[xn] = np.array(xs)
-        tbl[yn] = np.array(ys)
-        tbl[fl] = fls * unit if unit is not None else fls
+        fls = [rng.uniform(0.5, 50) for _ in range(nrow)]
+        bk = [rng.uniform(-1, 1) for _ in range(nrow)]
         has_bkg = rng.random() < 0.5
-        if has_bkg:
-            tbl['local_bkg'] = bk * unit if unit is not None else bk
         method = rng.choice(['center', 'center', 'interp', 'oversample', 'integrate'])
-        if unit is not None and method == 'integrate':
+        if which.endswith('unit') and method == 'integrate':
             method = 'oversample'        # astropy's dblquad discretisation cannot handle Quantities
         if which in ('image',) and method == 'integrate':
             method = 'interp'
         factor = rng.choice([3, 10])
-        name = f'support:{which}:{method}'
-        detail = {'model': which, 'shape': [ny, nx], 'model_shape': list(sh), 'x': xs, 'y': ys,
-                  'flux': fls.tolist(), 'local_bkg': bk.tolist() if has_bkg else None, 'method': method,
-                  'factor': factor}
-        try:
-            got = make_model_image((ny, nx), model, tbl, model_shape=sh, x_name=xn, y_name=yn,
-                                   discretize_method=method, discretize_oversample=factor)
-        except Exception as e:  # noqa: BLE001
-            ctx.violation('support:make_model_image:raises:' + type(e).__name__,
-                          'make_model_image raised on a valid table: ' + str(e)[:120], detail)
-            continue
-        want, mag = float_oracle((ny, nx), model, tbl, xn, yn, sh, method, factor)
-        gunit = getattr(got, 'unit', None)
-        garr = np.asarray(getattr(got, 'value', got), float)
-        ctx.support(name)
-        ctx.count_case(['support', which, method, ny, nx, xs, ys], True)
-        if gunit != unit:
-            ctx.violation('support:make_model_image:units', f'image unit {gunit} != model unit {unit}', detail)
-        scale = 1e6 if method == 'integrate' else 1.0       # dblquad: absolute tolerances of the integrator
-        if not close(garr, want, mag * scale, nrow):
-            ctx.violation('support:make_model_image:superposition:' + which,
-                          'image differs from the sum of the per-row windows beyond the rounding bound', detail)
-        # row order / concatenation to rounding
         p = list(range(nrow))
         rng.shuffle(p)
-        g2 = make_model_image((ny, nx), model, tbl[p], model_shape=sh, x_name=xn, y_name=yn,
-                              discretize_method=method, discretize_oversample=factor)
-        if not close(np.asarray(getattr(g2, 'value', g2), float), garr, mag * scale, nrow) \
-                or getattr(g2, 'unit', None) != gunit:
-            ctx.violation('support:make_model_image:row-order:' + which, 'image depends on row order', detail)
+        detail = {'support': 'models', 'model': which, 'shape': [ny, nx], 'model_shape': list(sh), 'x': xs, 'y': ys,
+                  'flux': fls, 'local_bkg': bk if has_bkg else None, 'method': method,
+                  'factor': factor, 'perm': p}
+        ctx.support(f'support:{which}:{method}')
+        ctx.count_case(['support', which, method, ny, nx, xs, ys], True)
+        for sig, what in support_one(detail):
+            ctx.violation(sig, what, detail)
 
 
 def support_psfphot(ctx, n):
     """PSFPhotometry / IterativePSFPhotometry model and residual images."""
     import astropy.units as u
     from astropy.nddata import NDData
-    from astropy.table import Table
+    from astropy.table import QTable, Table
     from photutils.datasets import make_model_image
-    from photutils.psf import CircularGaussianPRF, IterativePSFPhotometry, PSFPhotometry
+    from photutils.psf import CircularGaussianPRF, IterativePSFPhotometry, PSFPhotometry, SourceGrouper
     from photutils.detection import DAOStarFinder
     from photutils.background import LocalBackground
     rng = ctx.rng
     for it in range(n):
         ny, nx = rng.randint(15, 25), rng.randint(15, 25)
-        nsrc = rng.randint(1, 4)
-        psf = CircularGaussianPRF(fwhm=rng.choice([2.0, 2.5, 3.0]))
+        iterative = it % 3 == 2
+        nsrc = rng.randint(2 if iterative else 1, 4)
+        fw = rng.choice([2.0, 2.5, 3.0])
+        psf = CircularGaussianPRF(fwhm=fw)
+        psf_ref = CircularGaussianPRF(fwhm=fw)        # never handed to the code under test
         xs = [rng.uniform(1, nx - 2) for _ in range(nsrc)]
         ys = [rng.uniform(1, ny - 2) for _ in range(nsrc)]
         if rng.random() < 0.5:
             xs[0] = rng.choice([0.2, nx - 1.2])          # a source at the edge (window clipped)
         fl = [rng.uniform(50, 500) for _ in range(nsrc)]
+        ninit = nsrc
+        if iterative and nsrc >= 2:
+            # the last source is bright and NOT in init_params: the finder must pick it up in the
+            # residual of iteration 1, so that the model image spans several fit results
+            fl[-1] = rng.uniform(300, 500)
+            ninit = nsrc - 1
         truth = Table({'x_0': xs, 'y_0': ys, 'flux': fl})
         data = make_model_image((ny, nx), psf, truth, model_shape=(9, 9))
         data = data + np.array([[((7 * y + 3 * x) % 5) * 0.01 for x in range(nx)] for y in range(ny)]) + 0.5
-        use_unit = rng.random() < 0.3
+        use_unit = rng.random() < 0.3 and not iterative      # (the star finder's threshold is unit-less)
         use_lb = rng.random() < 0.5
         lb = LocalBackground(4, 7) if use_lb else None
-        init = Table({'x': [x + rng.uniform(-0.3, 0.3) for x in xs], 'y': [y + rng.uniform(-0.3, 0.3) for y in ys],
-                      'flux': fl})
+        init = (QTable if use_unit else Table)({'x': [x + rng.uniform(-0.3, 0.3) for x in xs[:ninit]],
+                                                'y': [y + rng.uniform(-0.3, 0.3) for y in ys[:ninit]]})
+        init['flux'] = np.array(fl[:ninit]) * u.Jy if use_unit else np.array(fl[:ninit])
         d = data * u.Jy if use_unit else data
-        if use_unit:
-            init['flux'] = init['flux'] * u.Jy
-        iterative = rng.random() < 0.3
         detail = {'shape': [ny, nx], 'x': xs, 'y': ys, 'flux': fl, 'unit': use_unit, 'localbkg': use_lb,
                   'iterative': iterative}
         with warnings.catch_warnings():
             warnings.simplefilter('ignore')
             try:
                 if iterative:
+                    mode = 'new' if it % 2 == 0 else 'all'
+                    detail['mode'] = mode
                     phot = IterativePSFPhotometry(psf, (5, 5), finder=DAOStarFinder(10.0, 2.5),
-                                                  localbkg_estimator=lb, aperture_radius=4,
-                                                  mode=rng.choice(['new', 'all']))
+                                                  grouper=SourceGrouper(3.0) if mode == 'all' else None,
+                                                  localbkg_estimator=lb, aperture_radius=4, mode=mode)
                 else:
                     phot = PSFPhotometry(psf, (5, 5), localbkg_estimator=lb, aperture_radius=4)
                 res = phot(d, init_params=init)
             except Exception as e:  # noqa: BLE001  (fitting is C12's subject)
-                ctx.stat('psfphot', 'fit_raised:' + type(e).__name__)
+                ctx.stat('psfphot', 'fit_raised:' + type(e).__name__ + ':' + str(e)[:60])
                 continue
             if res is None:
                 continue
@@ -669,9 +772,9 @@ def support_psfphot(ctx, n):
                         ctx.violation('support:psfphot:units', 'model image lost the data units',
                                       dict(detail, psf_shape=psf_shape, include_localbkg=inc))
                     # superposition from the public results table
+                    rt = res
                     if iterative:
-                        continue
-                    rt = phot.results if hasattr(phot, 'results') and phot.results is not None else res
+                        ctx.stat('psfphot', f'iterative:{mode}:fit_results={len(phot.fit_results)}')
                     tb = Table()
                     tb['x_0'] = np.asarray(getattr(rt['x_fit'], 'value', rt['x_fit']), float)
                     tb['y_0'] = np.asarray(getattr(rt['y_fit'], 'value', rt['y_fit']), float)
@@ -681,7 +784,13 @@ def support_psfphot(ctx, n):
                     if psf_shape is None:
                         continue             # bounding-box windows: covered by the exact cases
                     sh = (psf_shape, psf_shape) if isinstance(psf_shape, int) else psf_shape
-                    want, mag = float_oracle((ny, nx), psf, tb, 'x_0', 'y_0', sh)
+                    if repr(psf.parameters.tolist()) != repr(psf_ref.parameters.tolist()) or \
+                            [str(getattr(psf, pn).unit) for pn in psf.param_names] != \
+                            [str(getattr(psf_ref, pn).unit) for pn in psf_ref.param_names]:
+                        ctx.violation('support:psfphot:inputs-modified', 'the PSF model handed to PSFPhotometry was '
+                                      'modified by make_model_image', dict(detail, psf_shape=psf_shape))
+                        break
+                    want, mag = float_oracle((ny, nx), psf_ref, tb, 'x_0', 'y_0', sh)
                     if not close(np.asarray(getattr(mimg, 'value', mimg), float), want, mag, len(tb)):
                         ctx.violation('support:psfphot:superposition',
                                       'PSFPhotometry.make_model_image differs from the superposition of the '
@@ -745,20 +854,32 @@ def run(ctx):
         'ev (value of the discretised model at a pixel), bbox_shape and ev_unit are section variables of the '
         'model: the theorems hold for every such function; the correspondence instantiates them with the '
         'polynomial test model (harness/c18.py poly_class <-> C18_Model.poly_ev/poly_bbox)',
-        'a table row carries its model_shape / local_bkg entries (they are columns of the same table); the '
-        'model looks them up by row index exactly as the code does',
-        'units are per column, hence ev_unit is the same for every row of a table (hypothesis of the unit theorems)',
+        'exact arithmetic: values are scaled integers; the theorems say nothing about floating-point rounding of '
+        'the accumulated sums (the generators keep every operation exact; general doubles are compared with a '
+        'rounding bound in the support tests)',
+        'the window model overlap_slices is a hand model of astropy.nddata.overlap_slices(mode="trim") plus the '
+        'zero-size patch of photutils.utils.cutouts._overlap_slices, tied by the correspondence (edge / corner / '
+        'touching / half-pixel placements), not translated from astropy source',
+        'units are per column, hence ev_unit is the same for every row of a table (hypothesis units_uniform of the '
+        'unit clauses)',
         'an empty table yields a plain float array (no unit can be derived from rows); local_bkg whose unit '
         'differs from the model output (ValueError) is not modelled',
+        'render_orig / overlap_slices_orig (the unrepaired loop) are used only for the two *_unrepaired_refuted '
+        'witnesses; they are not tied by the correspondence (the witnesses are replayed on /repo HEAD by the '
+        'violation search instead)',
     ]
     ctx.cov['partial_clauses'] = [
         'analytic / PRF / image-based / compound / unit-ful models with arbitrary doubles and the integrate / '
         'oversample(3,10) discretisations: float sums compared with a rounding bound in Python (support tests)',
         'PSFPhotometry / IterativePSFPhotometry make_model_image and make_residual_image, make_psf_model_image: '
         'driven through the public API after a real fit; residual == data - model image compared bitwise, '
-        'superposition compared with the rounding bound (support tests; the fit itself is C12)',
+        'superposition compared with the rounding bound (support tests; the fit itself is C12); the theorem '
+        'residual_is_data_minus_model is about C18_Model.residual (np.subtract(data, model image))',
         'input model and table unchanged: snapshot comparison on every case (no theorem: the Coq model is a pure '
-        'function)',
+        'function; loop_is_fold_of_independent_rows shows that the working copy never leaks parameters between '
+        'rows)',
+        'row_order_invariant / non_overlapping_rows_skipped: the image part is unconditional; the unit part needs '
+        'units_uniform (and, for skipping, at least one remaining row)',
     ]
     n = 420 if not thorough else 3000
     cases = [gen_case(ctx.rng, small=(i % 4 == 0)) for i in range(n)]
@@ -787,6 +908,8 @@ def run(ctx):
             ctx.violation('correspondence:inexact-lattice', 'implementation output is not on the exact lattice',
                           {'case': c, 'impl': res_json(res)}, found_input=False)
         metamorphic(ctx, c, res, want, thorough)
+        if want is not None:
+            shift_check(ctx, c, res)
     k = next((i for i, c in enumerate(cases) if len(c['rows']) >= 2 and results[i][0] == 'img'), 0)
     ctx.sample({'case': cases[k], 'impl': res_json(results[k])})
     bad = ctx.coq_eval_cases(['C18_Model'], 'check_case', terms, case_type='case')
@@ -795,6 +918,17 @@ def run(ctx):
     # implementation cannot hide
     viol = [i for i in range(n) if not agrees(results[i], wants[i])]
     ctx.stat('oracle', 'disagreements', len(viol))
+    # the two known defects of /repo HEAD: when the implementation under test shows them, tie the model
+    # of the UNREPAIRED loop (C18_Model.render_orig, used by the *_unrepaired_refuted witnesses) to it
+    KNOWN = ('make_model_image:units:first-row-offimage', 'make_model_image:window-ends-at-lower-edge',
+             'make_model_image:units:depend-on-overlap')
+    if viol and all(signature(cases[i], results[i], wants[i]) in KNOWN for i in viol):
+        bad_orig = ctx.coq_eval_cases(['C18_Model'], 'check_case_orig', terms, case_type='case', tag='cases_orig')
+        ctx.stat('coq', 'unrepaired_model_disagreements', len(bad_orig))
+        for i in bad_orig[:5]:
+            ctx.violation('correspondence:C18_Model.check_case_orig', 'the model of the unrepaired loop disagrees '
+                          'with the (unrepaired) implementation', {'case': cases[i], 'impl': res_json(results[i])},
+                          found_input=False)
     for i in sorted(set(bad) | set(viol))[:30]:
         c, res, want = cases[i], results[i], wants[i]
         detail = {'case': c, 'impl': res_json(res),
@@ -810,11 +944,17 @@ def run(ctx):
                           'property holds on this input', detail, found_input=False)
     support_models(ctx, 60 if not thorough else 500)
     support_psf_sim(ctx, 10 if not thorough else 60)
-    support_psfphot(ctx, 6 if not thorough else 40)
+    support_psfphot(ctx, 9 if not thorough else 45)
 
 
 def replay(obj):
     r = obj['replay']
+    if r.get('support') == 'models':
+        fails = support_one(r)
+        for sig, what in fails:
+            print('FAILS:', sig, '-', what)
+        print('property holds on this input' if not fails else 'property FAILS on this input')
+        return 0 if not fails else 1
     if 'case' not in r:
         print('support-test replay: parameters are in the file; no automatic re-run')
         print(r)
@@ -833,6 +973,13 @@ def replay(obj):
         a, _ = run_impl(c, range(0, r['split']))
         b, _ = run_impl(c, range(r['split'], len(c['rows'])))
         ok = a[0] == 'img' and b[0] == 'img' and np.array_equal(a[2] + b[2], res[2])
+    if ok and 'shift' in r:
+        dy, dx = r['shift']
+        c2 = shifted_case(c, dy, dx, r['pad'])
+        r2, _ = run_impl(c2)
+        ny, nx = c['shape']
+        ok = r2[0] == 'img' and r2[1] == res[1] and np.array_equal(r2[2][dy:dy + ny, dx:dx + nx], res[2])
+        print('shifted:', res_json(r2))
     if ok and 'kept_rows' in r:
         r3, _ = run_impl(c, r['kept_rows'])
         ok = r3[0] == 'img' and r3[1] == res[1] and np.array_equal(r3[2], res[2])
